@@ -15,14 +15,14 @@ theorem blas_rowmajor_gemm (ta tb : Trans) (al be : Rat) (A B C : Mat) (i j : Na
       al * sumTo (match tb with | .N => B.r | .T => B.c)
         (fun l => (op ta A).get i l * (op tb B).get l j) + be * C.get i j := by
   cases ta <;> cases tb <;>
-    simp only [fffGemm, gemmF, Mat.T, op] <;>
+    simp only [fffGemm, gemmF, Mat.T, op, swIf, mn, ord2, Gen.gemvSwapTrans, Gen.gemvMIsSize2, Gen.gemvSwapsOperands, Gen.gemmSwapTransA, Gen.gemmSwapTransB, Gen.gemmSwapsOperands, Gen.gemmMIsSize2, Gen.symmSwapSide, Gen.symmSwapUplo, Gen.symmMIsSize2, Gen.trmmSwapSide, Gen.trmmSwapUplo, Gen.trmmSwapTrans, Gen.trmmMIsSize2, Gen.syrkSwapUplo, Gen.syrkSwapTrans, ↓reduceIte, Bool.false_eq_true] <;>
     (congr 2; apply sumTo_congr; intro l _; ring)
 
 /-- gemv: `SWAP_TRANS` with `m = size2, n = size1` computes `alpha * op(A) x + beta * y`. -/
 theorem blas_rowmajor_gemv (t : Trans) (al be : Rat) (A : Mat) (x y : Nat → Rat) (i : Nat) :
     fffGemv t al A x be y i =
       al * sumTo (match t with | .N => A.c | .T => A.r) (fun l => (op t A).get i l * x l) + be * y i := by
-  cases t <;> simp [fffGemv, gemvF, Trans.swap, Mat.T, op]
+  cases t <;> simp [fffGemv, gemvF, Trans.swap, Mat.T, op, swIf, mn, ord2, Gen.gemvSwapTrans, Gen.gemvMIsSize2, Gen.gemvSwapsOperands, Gen.gemmSwapTransA, Gen.gemmSwapTransB, Gen.gemmSwapsOperands, Gen.gemmMIsSize2, Gen.symmSwapSide, Gen.symmSwapUplo, Gen.symmMIsSize2, Gen.trmmSwapSide, Gen.trmmSwapUplo, Gen.trmmSwapTrans, Gen.trmmMIsSize2, Gen.syrkSwapUplo, Gen.syrkSwapTrans]
 
 /-- symm: `SWAP_SIDE`, `SWAP_UPLO` compute `alpha * sym(A) * B + beta * C` (Left) or
     `alpha * B * sym(A) + beta * C` (Right) with the triangle named by the caller's `Uplo`. -/
@@ -32,7 +32,7 @@ theorem blas_rowmajor_symm (s : Side) (u : Uplo) (al be : Rat) (A B C : Mat) (i 
       | .L => al * sumTo C.r (fun l => (symOf u A).get i l * B.get l j) + be * C.get i j
       | .R => al * sumTo C.c (fun l => B.get i l * (symOf u A).get l j) + be * C.get i j := by
   cases s <;> cases u <;>
-    simp only [fffSymm, symmF, Side.swap, Uplo.swap, Mat.T, symOf, inTri, decide_eq_true_eq] <;>
+    simp only [fffSymm, symmF, Side.swap, Uplo.swap, Mat.T, symOf, inTri, decide_eq_true_eq, swIf, mn, ord2, Gen.gemvSwapTrans, Gen.gemvMIsSize2, Gen.gemvSwapsOperands, Gen.gemmSwapTransA, Gen.gemmSwapTransB, Gen.gemmSwapsOperands, Gen.gemmMIsSize2, Gen.symmSwapSide, Gen.symmSwapUplo, Gen.symmMIsSize2, Gen.trmmSwapSide, Gen.trmmSwapUplo, Gen.trmmSwapTrans, Gen.trmmMIsSize2, Gen.syrkSwapUplo, Gen.syrkSwapTrans, ↓reduceIte, Bool.false_eq_true] <;>
     (congr 2; apply sumTo_congr; intro l _; split_ifs <;> ring)
 
 /-- trmm: side and uplo swapped, transpose and diag kept: `alpha * op(tri(A)) * B` (Left),
@@ -43,22 +43,25 @@ theorem blas_rowmajor_trmm (s : Side) (u : Uplo) (t : Trans) (d : Diag) (al : Ra
       | .L => al * sumTo B.r (fun l => (op t (triOf u d A)).get i l * B.get l j)
       | .R => al * sumTo B.c (fun l => B.get i l * (op t (triOf u d A)).get l j) := by
   cases s <;> cases u <;> cases t <;> cases d <;>
-    simp only [fffTrmm, trmmF, Side.swap, Uplo.swap, Mat.T, triOf, inTri, op, decide_eq_true_eq] <;>
+    simp only [fffTrmm, trmmF, Side.swap, Uplo.swap, Mat.T, triOf, inTri, op, decide_eq_true_eq, swIf, mn, ord2, Gen.gemvSwapTrans, Gen.gemvMIsSize2, Gen.gemvSwapsOperands, Gen.gemmSwapTransA, Gen.gemmSwapTransB, Gen.gemmSwapsOperands, Gen.gemmMIsSize2, Gen.symmSwapSide, Gen.symmSwapUplo, Gen.symmMIsSize2, Gen.trmmSwapSide, Gen.trmmSwapUplo, Gen.trmmSwapTrans, Gen.trmmMIsSize2, Gen.syrkSwapUplo, Gen.syrkSwapTrans, ↓reduceIte, Bool.false_eq_true] <;>
     (congr 1; apply sumTo_congr; intro l _; split_ifs <;> first | ring1 | (subst_vars; ring1) | (exfalso; omega))
 
 /-- trsm: if the column-major routine leaves in `B` the solution `X` of *its* triangular system
-    (swapped side and uplo, transposed operands), then `Xᵀ` — what the caller reads back in
+    (flags and sizes as the source's wrapper builds them — flag table `Gen/C16Tables.lean`: swapped side
+    and uplo, transposed operands), then `Xᵀ` — what the caller reads back in
     row-major order — solves the caller's system `op(tri(A)) X = alpha B` (Left) /
     `X op(tri(A)) = alpha B` (Right). -/
 theorem blas_rowmajor_trsm (s : Side) (u : Uplo) (t : Trans) (d : Diag) (al : Rat) (A B X : Mat)
-    (h : IsTrsmF s.swap u.swap t d B.c B.r al A.T B.T X) :
+    (h : IsTrsmF (swIf Gen.trsmSwapSide Side.swap s) (swIf Gen.trsmSwapUplo Uplo.swap u)
+      (swIf Gen.trsmSwapTrans Trans.swap t) d (mn Gen.trsmMIsSize2 B).1 (mn Gen.trsmMIsSize2 B).2 al A.T B.T X) :
     match s with
     | .L => ∀ i j, i < B.r → j < B.c →
         sumTo B.r (fun l => (op t (triOf u d A)).get i l * X.T.get l j) = al * B.get i j
     | .R => ∀ i j, i < B.r → j < B.c →
         sumTo B.c (fun l => X.T.get i l * (op t (triOf u d A)).get l j) = al * B.get i j := by
   cases s <;> cases u <;> cases t <;> cases d <;>
-    simp only [IsTrsmF, Side.swap, Uplo.swap, Mat.T, triOf, inTri, op, decide_eq_true_eq] at h ⊢ <;>
+    simp only [IsTrsmF, Side.swap, Uplo.swap, Mat.T, triOf, inTri, op, decide_eq_true_eq, swIf, mn,
+      Gen.trsmSwapSide, Gen.trsmSwapUplo, Gen.trsmSwapTrans, Gen.trsmMIsSize2, ↓reduceIte, Bool.false_eq_true] at h ⊢ <;>
     (intro i j hi hj; rw [← h j i hj hi]; apply sumTo_congr; intro l _;
      split_ifs <;> first | ring1 | (subst_vars; ring1) | (exfalso; omega))
 
@@ -72,7 +75,7 @@ theorem blas_rowmajor_syrk (u : Uplo) (t : Trans) (al be : Rat) (A C : Mat) (i j
         al * sumTo A.c (fun l => (op t A).get i l * (op t A).get j l) + be * C.get i j
       else C.get i j := by
   cases u <;> cases t <;>
-    simp only [fffSyrk, syrkF, Uplo.swap, Trans.swap, Mat.T, inTri, op, hsq, decide_eq_true_eq] <;>
+    simp only [fffSyrk, syrkF, Uplo.swap, Trans.swap, Mat.T, inTri, op, hsq, decide_eq_true_eq, swIf, mn, ord2, Gen.gemvSwapTrans, Gen.gemvMIsSize2, Gen.gemvSwapsOperands, Gen.gemmSwapTransA, Gen.gemmSwapTransB, Gen.gemmSwapsOperands, Gen.gemmMIsSize2, Gen.symmSwapSide, Gen.symmSwapUplo, Gen.symmMIsSize2, Gen.trmmSwapSide, Gen.trmmSwapUplo, Gen.trmmSwapTrans, Gen.trmmMIsSize2, Gen.syrkSwapUplo, Gen.syrkSwapTrans, ↓reduceIte, Bool.false_eq_true] <;>
     (split_ifs <;> first | rfl | (congr 2; apply sumTo_congr; intro l _; ring))
 
 /-! ## All-but-axis iteration (`PyArray_IterAllButAxis`, `fffpy_multi_iterator`) -/
